@@ -442,6 +442,15 @@ impl<'ast> Visit<'ast> for Indexer {
         self.node_stack.pop();
     }
 
+    // every `{ ... }` (function bodies, then / else blocks, loop bodies, arm blocks): the ranges of its statements,
+    // so that a region can be "the statements of this block from the one that mentions X on"
+    fn visit_block(&mut self, b: &'ast syn::Block) {
+        let st: Vec<String> = b.stmts.iter().map(|s| rj(r(s.span()))).collect();
+        let f = vec![("stmts".to_string(), format!("[{}]", st.join(",")))];
+        self.add_node("stmts_block", r(b.brace_token.span.join()), f);
+        visit::visit_block(self, b);
+    }
+
     fn visit_stmt_macro(&mut self, m: &'ast syn::StmtMacro) {
         let f = vec![
             ("name".to_string(), esc(&toks(&m.mac.path))),
